@@ -1,4 +1,4 @@
-import FatVerif.Proofs.SlotTreeImg15
+import FatVerif.Proofs.SlotTreeImg20
 import FatVerif.Props.C01tree
 /-!
 # C01, read-only half END TO END at byte level: `open_dir`, `open_file`, listing on a device image
@@ -507,8 +507,9 @@ cluster chain listing its dot entries and the node's entries.  It is RE-ESTABLIS
   the specification's checker accepts them in turn, and the final image holds a slot tree whose abstraction is the
   specification's final tree.  The alphabet also has `remove` of a file (`remove_file_img_partial`) and `create_dir`
   (`create_dir_img_partial`), both with last directory = root; after `create_dir` the cluster map of the bundle is
-  extended (`ClAgree`), so the history theorem quantifies the map existentially.  MISSING calls: `rename`, `remove` of
-  a directory, any mutating call whose last directory lies below the root, handles other than the root's; the
+  extended (`ClAgree`), so the history theorem quantifies the map existentially; and `rename` of a file inside the
+  root under single names (`rename_file_img_partial`).  MISSING calls: `rename` of a directory / between directories
+  / on deeper paths, `remove` of a directory, any mutating call whose last directory lies below the root, handles other than the root's; the
   FAT-level side conditions (`FreedApart`, `DirRes.apart`: freed / allocated clusters are on no directory chain)
   are hypotheses. -/
 
@@ -671,6 +672,61 @@ theorem create_dir_refines_spec_img_partial (u : Char → List Char) {d : Dev} {
     obtain ⟨s, d', hr, hs, cl', hW, hA⟩ := o2 rows hout
     exact Or.inr ⟨s, d', _, cl', hr, hs, hW, hA, hwf', hacc.1, hacc.2⟩
 
+/-- **`rename` of a file inside the fixed root at byte level** (`SlotTreeImg.rename_file_root_img`): both paths are
+    single names (`splitPathL … = (_, none)`: no `/` inside; a trailing `/` is allowed), both handles the root's.
+    `RenameRes`: the source entry, if found, is a FILE whose attribute byte has no undefined bits (`< 64`: the reader
+    masks bits 6–7 — `attrsTruncate` — and the record written back carries the masked byte, whereas the model's
+    `renamedSfn` copies the byte), and the new entry fits into the root region (it is written BEFORE the old slots are
+    marked deleted).  The program ends as `renameS` says: `InvalidInput` for a dot name, `NotFound`, the error of
+    `validate_long_name`, `AlreadyExists`, nothing at all when the new name answers to the source entry itself, or
+    the move; after the move the image holds the new slot tree (`ImgTreeW` re-established by one root step: the
+    renamed record `renamedSfn sfn alias` under the long name, then the old slot range deleted; the cluster chain of
+    the file is not touched).  `_partial`: root only, single names, files only (a directory needs the `..` re-link
+    and the ancestor walk: `rename_dir_sim` is not composed), no move between directories. -/
+theorem rename_file_img_partial {d : Dev} {up : Char → List Char} {t : Node} {cl : List String → Option Nat}
+    (W : ImgTreeW d up t cl) (hwf : TreeWf up t) (env : Env) (henv : env.upper = up)
+    (fuel : Nat) (src dst : String) (sa da : List Char) (h1 : Names.splitPathL src.toList = (sa, none))
+    (h2 : Names.splitPathL dst.toList = (da, none)) (hroot : ∃ s c, t = .dir s c)
+    (hres : ∀ slots ch, t = .dir slots ch → RenameRes d up slots ch (String.ofList sa) (String.ofList da))
+    (hnh : (renameS up 70000 t [] src [] dst).out ≠ .error .hang) :
+    (∀ e, (renameS up 70000 t [] src [] dst).out = .error e →
+      FailsV (FatVerif.rename env (fuel + 1) (rootDirStream d.fs) src (rootDirStream d.fs) dst) d e) ∧
+    (∀ rows, (renameS up 70000 t [] src [] dst).out = .ok rows →
+      ∃ d' : Dev, run (FatVerif.rename env (fuel + 1) (rootDirStream d.fs) src (rootDirStream d.fs) dst) d =
+          (.ok (), d') ∧ VolStep d d' ∧ ImgTreeW d' up (renameS up 70000 t [] src [] dst).tree cl) :=
+  rename_file_root_img W hwf env henv fuel src dst sa da h1 h2 hroot hres hnh
+
+/-- … composed with the refinement of the specification -/
+theorem rename_file_refines_spec_img_partial (u : Char → List Char) {d : Dev} {t : Node}
+    {cl : List String → Option Nat} (W : ImgTreeW d (upOf u) t cl) (hwf : TreeWf (upOf u) t) (env : Env)
+    (henv : env.upper = upOf u) (fuel : Nat) (src dst : String) (sa da : List Char)
+    (h1 : Names.splitPathL src.toList = (sa, none)) (h2 : Names.splitPathL dst.toList = (da, none))
+    (hroot : ∃ s c, t = .dir s c)
+    (hres : ∀ slots ch, t = .dir slots ch → RenameRes d (upOf u) slots ch (String.ofList sa) (String.ofList da))
+    (hnh : (renameS (upOf u) 70000 t [] src [] dst).out ≠ .error .hang)
+    (hok : OpOk (upOf u) t (.rename [] src [] dst)) :
+    (∃ e, FailsV (FatVerif.rename env (fuel + 1) (rootDirStream d.fs) src (rootDirStream d.fs) dst) d e ∧
+      e ∈ (Spec.evalOp (cfgOf u) (abs t) (.rename [] src [] dst)).errs) ∨
+    (∃ (d' : Dev) (t' : Node),
+      run (FatVerif.rename env (fuel + 1) (rootDirStream d.fs) src (rootDirStream d.fs) dst) d = (.ok (), d') ∧
+      VolStep d d' ∧ ImgTreeW d' (upOf u) t' cl ∧ TreeWf (upOf u) t' ∧
+      (Spec.evalOp (cfgOf u) (abs t) (.rename [] src [] dst)).errs = [] ∧
+      (Spec.evalOp (cfgOf u) (abs t) (.rename [] src [] dst)).tree = abs t') := by
+  obtain ⟨o1, o2⟩ := rename_file_img_partial W hwf env henv fuel src dst sa da h1 h2 hroot hres hnh
+  obtain ⟨hwf', _, hacc⟩ := slot_step_refines u 70000 t hwf (.rename [] src [] dst) [] hok
+  simp only [stepSlot] at hwf' hacc
+  unfold Accepts at hacc
+  cases hout : (renameS (upOf u) 70000 t [] src [] dst).out with
+  | error e =>
+    rw [hout] at hacc
+    rcases hacc with h | h
+    · exact absurd (h ▸ hout) hnh
+    · exact Or.inl ⟨e, o1 e hout, h⟩
+  | ok rows =>
+    rw [hout] at hacc
+    obtain ⟨d', hr, hs, hW⟩ := o2 rows hout
+    exact Or.inr ⟨d', _, hr, hs, hW, hwf', hacc.1, hacc.2⟩
+
 /-! ### histories through the root handle -/
 
 /-- a history of calls at byte level with the slot tree beside it: the observed outcomes, the final device and tree -/
@@ -691,7 +747,8 @@ def HistOk (up : Char → List Char) (fuel : Nat) : (List String → Option Nat)
         ClAgree up t cl cl1 → HistOk up fuel cl1 d1 (modelStep up d t c).tree rest
 
 /-- **C01 at byte level for histories (partial: calls `open_dir`, `open_file`, listing, `create_file`, `create_dir`
-    and `remove` of a file with last directory = root, all through the root handle)**: from a device whose image
+    and `remove` of a file with last directory = root, `rename` of a file inside the root under single names, all
+    through the root handle)**: from a device whose image
     holds a well-formed slot tree, every call's byte-level program ends with the slot tree's outcome (`ByteRun`), the
     specification's checker accepts the outcomes in turn and ends in the abstraction of the final slot tree, which
     the final image holds (under some cluster map). -/
